@@ -599,6 +599,12 @@ func genC02(c *Ctx) {
 				}
 			}
 		}
+		if k%6 == 0 {
+			// a configuration obtained by editing another game's Config() (different board size)
+			other := roadBoard(c.R, 3+c.R.Intn(6))
+			c.Emit("cfgreuse " + encPos(other) + " " + encPos(p))
+			c.Count("cfgreuse")
+		}
 		if k%4 == 0 {
 			// exported accessors incl. Analysis() and GameOver on the same boards; Flood / BitCoords / TrailingZeros directly
 			c.Emit("acc " + encPos(p))
